@@ -15,6 +15,25 @@ prop("C01", "PBT (Hypothesis byte-tape generators) against an independent refere
      "Exploration: every DSL-reachable leaf shape (kind x pre-processor x callable) is enumerated; arguments of every JSON-like type and list/mapping documents are generated; filter result, partition views and all entry points are compared with an independent reference evaluator in which any undefined comparison means 'not satisfied'. Any escaping exception is a violation.",
      TRUST, "DESIGN.md 3/C01")
 
+prop("C02", "PBT: generated call histories (model-based, program-as-data) + one-shot deep trees against reference Boolean algebra; object-graph fingerprints for operand immutability",
+     "Exploration: histories of build steps (leaf, null, &,|,^, combine-with-null on either side, same/different-operator-then-null family enumerated, spec lists with nesting, operand reuse) are generated; after EVERY step every pool member is re-filtered on probe documents and compared with the reference algebra (null = identity), and the structural fingerprint of every pre-existing member must be unchanged. Deep random trees (depth<=6) via DSL and via spec lists are compared one-shot.",
+     TRUST, "DESIGN.md 3/C02")
+prop("C03", "PBT: document-guided path generation against a reference frontier walk; differential over 5 entry points",
+     "Exploration: paths mixing primitive/map/list/map-or-list parts with condition trees are drawn by walking the generated document (plus injected misses); the selection (values and concrete paths, order, concrete->node|None, non-concrete->list) is compared with an independent part-by-part walk for all five entry points.",
+     TRUST, "DESIGN.md 3/C03")
+prop("C04", "PBT with exhaustive modifier grid per generated (path, document); truthfulness by re-walking reported paths",
+     "Exploration: for each generated (document, path) the whole datum x multiplicity x order x return_paths grid is enumerated; reported paths are re-walked on the original document, must be pairwise distinct, and every modifier result is compared with the reference (first/last/single/all, ValueError on several for single, refusal on concrete paths).",
+     TRUST, "DESIGN.md 3/C04")
+prop("C05", "PBT against reference rule test (selection x condition tree), raw and wrapped input",
+     "Exploration: rules (document-guided path x value-kind condition tree, ill-typed arguments included) are tested on generated documents; is_valid, tested, the failure list (values, true concrete paths, order), num_failures and non-empty reasons are compared with the reference.",
+     TRUST, "DESIGN.md 3/C05")
+prop("C06", "PBT with exhaustive permutation of the rule list (<=4 rules: all 24; 5 rules: 12 drawn) against reference conjunction",
+     "Exploration: cast-free schemas are validated in every permutation of their rule list; verdict, failure sum, tested count/fraction, stable shortest-path-first order, the multiset of (rule, failing path) and the textual report (always str, names every failing path) are compared with the reference for each permutation.",
+     TRUST, "DESIGN.md 3/C06")
+prop("C07", "PBT/fuzzing for crash-freedom: hostile documents x full callable set x casts, exceptions bucketed by (type, innermost valida frame)",
+     "Exploration: schemas over all callables (well-typed arguments) with and without casts on hostile documents; Schema.validate and Rule.test must return result objects; any escaping exception is a violation bucketed by root cause so the search continues behind known ones.",
+     TRUST, "DESIGN.md 3/C07")
+
 BUILT = [l.strip() for l in open(os.path.join(HERE, "tools", "built.txt")) if l.strip()]
 ALL = [f"C{i:02d}" for i in range(1, 21)]
 checks = []
